@@ -211,6 +211,9 @@ class Interp:
         self.ops.ctx = ctx
         self.mutlog = []
         self.ext_calls = []
+        # default values are evaluated once per function definition and
+        # shared by all calls of one run (mutable defaults)
+        self.default_cache = {}
 
     # ------------------------------------------------------------ modules
     def module_path(self, name):
@@ -403,6 +406,12 @@ class Interp:
                 if a.kind == 'classmethod':
                     return BoundMethod(v.cls, a)
                 return BoundMethod(v, a)
+            if isinstance(a, Builtin) and getattr(a, 'bind_self', False):
+                fn = a.fn
+                if a.pass_interp:
+                    return Builtin(a.name, lambda it, *x, **k: fn(it, v, *x, **k),
+                                   pass_interp=True)
+                return Builtin(a.name, lambda *x, **k: fn(v, *x, **k))
             return a
         if isinstance(v, PyClass):
             if name == '__name__':
@@ -577,7 +586,7 @@ class Interp:
             else:
                 di = i - (len(params) - nd)
                 if di >= 0:
-                    env.vars[p] = self.eval(defaults[di], denv)
+                    env.vars[p] = self._default(defaults[di], denv)
                 else:
                     raise_('TypeError', "%s() missing required argument '%s'"
                            % (fv.name, p))
@@ -593,7 +602,7 @@ class Interp:
             if p.arg in kwargs:
                 env.vars[p.arg] = kwargs.pop(p.arg)
             elif d is not None:
-                env.vars[p.arg] = self.eval(d, denv)
+                env.vars[p.arg] = self._default(d, denv)
             else:
                 raise_('TypeError', "%s() missing keyword-only argument '%s'"
                        % (fv.name, p.arg))
@@ -603,6 +612,14 @@ class Interp:
             raise_('TypeError', "%s() got an unexpected keyword argument '%s'"
                    % (fv.name, self.models.first_key(kwargs)))
         return env
+
+    def _default(self, node, denv):
+        if not isinstance(node, (ast.List, ast.Dict, ast.Set)):
+            return self.eval(node, denv)
+        cache = self.__dict__.setdefault('default_cache', {})
+        if id(node) not in cache:
+            cache[id(node)] = self.eval(node, denv)
+        return cache[id(node)]
 
     def call_function(self, fv, args, kwargs):
         env = self.bind_args(fv, args, kwargs)
